@@ -78,13 +78,15 @@ def cmp_rows(exp, got):
     return None
 
 
-def replay_case(ctx, c, rng, suspects, sample=False):
+def replay_case(ctx, c, rseed, suspects, sample=False):
+    """rseed fixes the realisation (scale of the units, packing into transactions, statement style): stored in the case"""
+    rng = random.Random(rseed)
     prog = {k: c[k] for k in ('ledger', 'mask', 'where', 'targets', 'subbal')}
     prog['agg'] = False
     scale = rng.choice((1, 1, 10, 100))
     entries = hb.build_entries(c['ledger'], c['mask'], c['grp'], c['prices'], rng, scale)
     conn = hb.connect(entries)
-    case = {'kind': 'balance', 'case': c, 'scale': scale, 'seed': rng.random()}
+    case = {'kind': 'balance', 'case': c, 'scale': scale, 'rseed': rseed}
     ok = True
     # -- the balance column
     try:
@@ -303,12 +305,12 @@ def record_serial(ctx, conn, npost, rng, masks, out, suspects):
         k = max([0] + [max(hb.places(n), hb.places(key[1][0])) for key, n in positions] + [hb.rows_scale(rows)])
         sc = 10 ** k
         prog['ledger'] = [hb.json_position(p, sc) for p in positions]
-        line = {'k': 'serial', 'id': len(out) + 1, 'prog': hb.prog_to_trace(prog), 'rows': hb.rows_to_trace(rows, sc)}
+        line = {'k': 'serial', 'id': len(out) + 1, 'prog': hb.prog_to_trace(prog), 'rows': hb.rows_to_trace(rows, sc),
+                'sv': [[r[0], r[2]] for r in rows]}
     except hb.OutOfDomain:
         ctx.skipped += 1
         return
     line['_text'] = text
-    line['_svals'] = [[r[0], r[2]] for r in rows]
     out.append(line)
     ctx.case('serial:' + text + json.dumps(prog['ledger'][:6]))
 
@@ -409,7 +411,7 @@ def validate(ctx, lines, suspects):
     for rj in rejected:
         ln = lines[rj['line'] - 1]
         if ln['k'] == 'serial':
-            suspects.add('C2S', dict(ln['prog']), None, {'kind': 'trace', 'line': {k: v for k, v in ln.items() if k != '_svals'},
+            suspects.add('C2S', dict(ln['prog']), None, {'kind': 'trace', 'line': dict(ln),
                                                         'verdict': rj}, None, ln['_text'])
             suspects.items[-1]['trace_rows'] = ln['rows']
         else:
@@ -503,7 +505,7 @@ def run(ctx):
     ctx.leg('MC', shipped_counterexample='targets = <<"B","S","B">>: the interposed scan evicts the entry, the second '
             'reference adds the posting again' if '"B", "S", "B"' in r1.behaviour.replace('\n', ' ') else 'see notes')
     # ---- S2C
-    ncases = ctx.pick(1000, 24000)
+    ncases = ctx.pick(1000, 10000)
     w = 8
     res = ctx.tlc('Gen_Balance', 'Gen_Balance_case.cfg', leg='GEN', simulate='num=%d' % (ncases // w), depth=120,
                   seed=ctx.seed, workers=w)
@@ -520,7 +522,7 @@ def run(ctx):
         seen['BN'] += 'BN' in c['where']
         seen['cost'] += any(p[0][1] != hb.NOCOST for p in c['ledger'])
         seen['reduce'] += any(p[1] < 0 for p in c['ledger'])
-        if not replay_case(ctx, c, rng, suspects, sample=(n < 2 or n % 50 == 0)):
+        if not replay_case(ctx, c, rng.randrange(2 ** 31), suspects, sample=(n < 2 or n % ctx.pick(100, 400) == 0)):
             nbad += 1
         ctx.traces += 1
     for k, v in seen.items():
@@ -530,7 +532,7 @@ def run(ctx):
     # ---- C2S
     lines = []
     ex = example_entries(ctx.seed)
-    nwin = ctx.pick(40, 500)
+    nwin = ctx.pick(40, 300)
     for _ in range(nwin):
         entries, npost = window(ex, rng)
         if npost == 0:
@@ -540,7 +542,7 @@ def run(ctx):
             record_serial(ctx, conn, npost, rng, EX_MASKS, lines, suspects)
         for _ in range(3):
             record_hom(ctx, conn, rng, EX_MASKS, EX_GROUPS, EX_DATES, lines)
-    nrnd = ctx.pick(60, 800)
+    nrnd = ctx.pick(60, 500)
     for _ in range(nrnd):
         entries, npost, prices = random_ledger(rng, rng.randint(3, 40))
         conn = hb.connect(entries)
@@ -565,8 +567,7 @@ def replay(ctx, rep):
     case = rep['case']
     if case.get('kind') == 'balance':
         suspects = Suspects()
-        rng = random.Random(rep.get('seed'))
-        ok = replay_case(ctx, case['case'], rng, suspects)
+        ok = replay_case(ctx, case['case'], case['rseed'], suspects)
         for s in suspects.items:
             print('replay: statement', s['text'])
             print('  expected', hb_show_rows(s['expected']))
